@@ -210,3 +210,21 @@ LANES = [
         rule="mutated/tolerated URL; oracle = library parse of u and of normalize(u) agree; idempotence",
     ),
 ]
+
+
+def _fz_decode(fdp):
+    k = fdp.ConsumeIntInRange(0, 2)
+    rest = fdp.ConsumeUnicodeNoSurrogates(fdp.remaining_bytes())
+    if k == 0:
+        url = "gemini://" + rest
+    elif k == 1:
+        url = "gemini://h" + rest
+    else:
+        url = rest
+    return {"url": url, "mut": "atheris", "labels": []}
+
+
+FUZZ_LANES = [
+    {"name": "url-bytes", "lane": "mutation", "decode": _fz_decode, "runs": {"thorough": 400000},
+     "seeds": [b"\x00example.org/a/b?q", b"\x00[::1]:1965/x", b"\x01ost:70000/", b"\x02gemini://u@h/#f"]},
+]
